@@ -879,7 +879,8 @@ def tab19(units, R):
             if lib is not None:
                 kind, target, argc, argk, lit = lib
                 start = (disp.get(argc) + argk) if disp.get(argc) is not None else None
-                if not inloop:
+                if not inloop and not (kind == 'span' and not lit):
+                    # (cursor += strlen(cursor) lands on the terminator wherever it starts: it is no scan for the closer)
                     results['opener'].add((('*pp', start),))
                 if kind == 'span':
                     # cursor += strcspn(cursor, lit) / strlen(cursor): lands on the terminator or on the first byte of lit
